@@ -141,35 +141,38 @@ func runC18(c *Ctx) {
 			if !ok {
 				return false
 			}
-			// the done branch must return without dialling or swapping
-			return reachFromBlock(done, func(x ssa.Instruction) bool { return c.isFactoryCall(x) || c.isSockStore(x) }, isReturn) == nil &&
-				reachFromBlock(done, func(x ssa.Instruction) bool { return inLoop(x.Block()) && x == x.Block().Instrs[0] && x.Block() != done }, isReturn) == nil
+			// the done branch must end the goroutine without dialling or swapping, and must not spin
+			first := done.Instrs[0]
+			return reachFromBlockUp(done, func(x ssa.Instruction) bool { return c.isFactoryCall(x) || c.isSockStore(x) }, nil) == nil &&
+				reachFromUp(first, func(x ssa.Instruction) bool { return x == first }, nil) == nil
 		}
 		var dials []ssa.Instruction
-		allInstrs(g, func(in ssa.Instruction) {
+		p.coneInstrs(g, func(in ssa.Instruction) {
 			if c.isFactoryCall(in) {
 				dials = append(dials, in)
 			}
 		})
 		for _, d := range dials {
+			d := d
+			isD := func(x ssa.Instruction) bool { return x == d }
 			construct := fmt.Sprintf("%s: context checked between the back-off sleep and the dial", fname(g))
 			bad := false
-			allInstrs(g, func(in ssa.Instruction) {
+			p.coneInstrs(g, func(in ssa.Instruction) {
 				ci, ok := in.(*ssa.Call)
 				if !ok || calleeName(ci) != "time.Sleep" {
 					return
 				}
-				if reachFrom(in, func(x ssa.Instruction) bool { return x == d }, isGoodCheck) != nil {
+				if reachFromUp(in, isD, isGoodCheck) != nil {
 					bad = true
 				}
 			})
-			if reachFromEntry(g, func(x ssa.Instruction) bool { return x == d }, isGoodCheck) != nil {
+			if reachFromEntry(g, isD, isGoodCheck) != nil {
 				bad = true
 			}
 			c.check(!bad, "R18.2", construct, c.ipos(d), "every path to the dial passes a context check whose done branch returns",
 				"a dial can be attempted without re-checking the context after the back-off sleep: a client closed during the sleep still dials once more (and leaks that connection)")
 			cons2 := fmt.Sprintf("%s: context checked between the dial and the socket swap", fname(g))
-			swapReach := reachFrom(d, c.isSockStore, isGoodCheck)
+			swapReach := reachFromUp(d, c.isSockStore, isGoodCheck)
 			c.check(swapReach == nil, "R18.2", cons2, c.ipos(d), "every path from the dial to the swap passes a context check",
 				"a freshly dialled socket can be installed although the client was closed while dialling: a reader and a ping goroutine are started on a connection nobody will ever close")
 		}
